@@ -521,7 +521,9 @@ Definition s1_builtins : list str := Eval compute in map s_
    "circle"; "width"; "move"; "line"; "rect"; "color"; "colour"; "stroke"; "fill"; "linecap"; "text";
    (* the pure string and math built-ins of Sem.pure_builtin (results typed in SemSound.pure_builtin_sound) *)
    "upper"; "lower"; "trim"; "replace"; "index"; "split"; "hsl"; "floor"; "ceil"; "round";
-   "pow"; "atan2"; "log"; "sin"; "cos"; "rand"; "rand1"]%string.
+   "pow"; "atan2"; "log"; "sin"; "cos"; "rand"; "rand1";
+   (* fmt.Sprintf on evy values (Sem.builtin: Builtins.sprintf_loop; SemSound.builtin_sound) *)
+   "sprintf"; "printf"]%string.
 
 (* the type component of the fragment predicate: in the strict fragment `any` never occurs inside a
    composite type *)
